@@ -499,6 +499,12 @@ class Prop(Check):
         "Kwd.C21_same_model",
         "Kwd.C21_literal_value",
         "Kwd.C21_glued_differs",
+        "Kwd.C21_written_literal",
+        "Kwd.C21_spelling_irrelevant",
+        "Kwd.C21_plain_spelling",
+        "Kwd.C21_never_glued_written",
+        "Kwd.C21_non_kwd_unchanged_written",
+        "Kwd.C21_decode_total",
         "Peg.Case.C21_autokwdTok_compileLit",
         "Peg.Case.C21_same_tokTable",
         "Peg.Case.C21_same_run",
